@@ -60,6 +60,12 @@ CHECKS["C17"] = dict(
     note="Trusted: TLC, the virtual loop (ms grid snapping + rank offsets), derivation of member lists from the config classes. set_config_mode before any sleep raises by design (asserted in code) and is not exercised.",
     design="§4 C17")
 
+CHECKS["C15"] = dict(
+    technique="Discovery.tla model-checked by TLC for the four filter settings (consumer and discover loop as independent pollers, replies at any time/multiplicity) + TLC trace validation of real GeckoAsyncLocator.discover() runs against scripted responders on the virtual loop",
+    text="TLC checks NoDuplicates, OnlyRequested, WithinTimeout, PromptWhenFiltered, PromptWhenAny and NotEarly over every arrival pattern of <=4 replies from 3 spas and every consumer/loop wake order. Real discovery runs (0..6 responders with names containing '|' and latin-1, duplicate and late replies, loss, address/identifier/absent filters, suspended client handlers, four wake-order policies, a boundary grid around the initial wait and the timeout) are logged - reply arrival, queue pops, announced descriptors, return time, listed spas, endpoint and LOC tasks - and validated by TLC (FIFO consumption, one announcement per new wanted spa with identifier/name/address intact, listed = announced, return-time rule, endpoint closed, no helper task left).",
+    note="Trusted: TLC, virtual loop, queue wrapper. Timing tolerance one poll + 6 ms (+ the client's own handler suspension where it delays the code). Only hello replies are sent to the locator's queue.",
+    design="§4 C15")
+
 NOT_YET = {}
 
 
